@@ -65,6 +65,10 @@ impl GreenNode {
         let header = &mut Arc::get_mut(&mut data).unwrap().header.header;
         header.text_len = text_len;
         header.child_hash = hasher.finish() as u32;
+        #[cfg(cstree_verif)]
+        {
+            header.child_hash &= crate::verif::hash_mask();
+        }
         GreenNode {
             data: Arc::into_thin(data),
         }
@@ -139,6 +143,14 @@ impl GreenNode {
         GreenNodeChildren {
             inner: self.data.slice.iter(),
         }
+    }
+}
+
+#[cfg(cstree_verif)]
+impl GreenNode {
+    /// Address of the shared allocation (sharing through the node cache is not otherwise observable).
+    pub fn verif_addr(&self) -> usize {
+        self.data.with_arc(|arc| &**arc as *const _ as *const u8 as usize)
     }
 }
 
